@@ -662,7 +662,12 @@ pub fn do_mod_codegen(
     program: &CompileForm,
 ) -> Result<CompiledCode, CompileErr> {
     // A mod form yields the compiled code.
-    let without_env = opts.set_start_env(None).set_in_defun(false);
+    // The nested program is a program of its own: it starts from an empty
+    // code generator, not from the state of the function it appears in.
+    let without_env = opts
+        .set_start_env(None)
+        .set_in_defun(false)
+        .set_code_generator(empty_compiler(opts.prim_map(), program.loc.clone()));
     let mut throwaway_symbols = HashMap::new();
     let runner = context.runner();
     let optimizer = context.optimizer.duplicate();
